@@ -35,7 +35,9 @@ def run(tier, seed, replay):
         "exhaustive": True,
         "rule": "TLC: BFS over (function, A) = 4096 states, invariant AluFacts over all 512 (B, carry-in) per state "
                 "= 2 097 152 points; reference table serialised by TLC and compared with AluOutput::from_input on "
-                "every point (traces_validated_against_impl counts compared points)",
-        "points_compared": res["points"], "mismatching_points": res["mismatches"],
+                "every point (traces_validated_against_impl counts compared points); every point is evaluated in six call orders "
+                "(ascending, descending, after the swapped operands, after the flipped carry-in, after every other function, random) "
+                "so that a result depending on earlier calls is seen",
+        "points_compared": res["points"], "alu_calls": res["calls"], "mismatching_points": res["mismatches"],
     }
     return v.finish("model_checking", cov, ["TLC/SANY, CommunityModules Bitwise", "harness packing of AluOutput getters"])
